@@ -17,7 +17,7 @@ var Pages = []string{
 <ul><li>one item</li><li>two item</li></ul>
 <div class="pager"><a href="/a?page=1" rel="prev">Prev</a> <a href="/a?page=1">1</a> 2 <a href="/a?page=3">3</a> <a href="/a?page=4">4</a> <a href="/a?page=3" class="next">Next page</a></div></div></body></html>`,
 	// 1: short page, path-style pager
-	`<html><head><title>Short</title></head><body><div><p>Only a few words here.</p><p><a href="http://h.t/story/1">1</a> <a href="http://h.t/story/3">3</a> <a href="http://h.t/story/3">next</a></p></div></body></html>`,
+	`<html><head><title>Short</title></head><body><div><p>Only a few words here.</p><figure><img data-src="lazy-fig.png" src="ph.gif" width="640" height="480"><figcaption>A caption for the figure</figcaption></figure><p><a href="http://h.t/story/1">1</a> <a href="http://h.t/story/3">3</a> <a href="http://h.t/story/3">next</a></p></div></body></html>`,
 	// 2: no pager at all, layout table, schema.org microdata
 	`<html><head><title>Plain page title - Site</title></head><body itemscope itemtype="http://schema.org/Article"><h1 itemprop="headline">Schema headline</h1><span itemprop="author" itemscope itemtype="http://schema.org/Person"><span itemprop="name">Ann Author</span></span><table><tr><td><p>Layout cell text that is long enough to count as a paragraph of the article body, more words, more words, more words.</p></td></tr></table></body></html>`,
 	// 3: custom OpenGraph prefixes, lazy image with several lazy attributes, query pager with two numeric parameters
